@@ -97,7 +97,7 @@ def main(argv=None):
 
     det = {"ok": True, "skipped": True}
     if not args.no_selftest:
-        det = _determinism_selftest(prop_id, tier, seed, 24 if tier == "quick" else 64)
+        det = _determinism_selftest(prop_id, tier, seed, 12 if tier == "quick" else 64)
         if not det["ok"]:
             print(f"HARNESS-ERROR determinism self-test failed: {det['why']}")
             return 2
